@@ -141,8 +141,13 @@ fn main() {
     };
     // thorough tier: coverage-guided stage (libFuzzer through cargo-fuzz), unless a
     // violation is already known or the stage is switched off
+    // VERIF_ONLY_FUZZ=1 (harness development): judge the coverage-guided stage alone
+    let only_fuzz = std::env::var("VERIF_ONLY_FUZZ").is_ok();
+    if only_fuzz {
+        run.parts.clear();
+    }
     let already_failed = run.parts.iter().any(|p| p.failure.is_some());
-    if tier == Tier::Thorough && !already_failed && std::env::var("VERIF_NO_FUZZ").is_err() {
+    if (tier == Tier::Thorough || only_fuzz) && !already_failed && std::env::var("VERIF_NO_FUZZ").is_err() {
         if let Err(e) = avt_verif::fuzzstage::build(&env) {
             eprintln!("FUZZ BUILD PROBLEM (infrastructure, not a violation): {}", e);
             std::process::exit(2);
